@@ -8,7 +8,8 @@ from collections import Counter
 
 from .. import leanproj, pipeline, evalcorr, gen
 from ..common import Rng, seed
-from ..corr import build_model
+from ..corr import build_model, build_harness
+from .. import constcorr
 from .C01 import random_programs
 
 K = ("S", "Kombi")
@@ -257,6 +258,8 @@ def check(res, tier):
                     lab, cfg.name(), r.stdout[-80:], want, r.cls), {"program": src, "expected_stdout": want, "config": cfg.name(), "implementation": r.as_dict()})
     rnd = random_programs(sd + 31, 120 if quick else 1500, feats={"structs": True, "funcs": True, "variable": True, "refs": True})
     st2 = evalcorr.judge_programs(res, ddp, model, rnd, cfgs[:1] if quick else cfgs[:2], "random")
+    # the flags behind the -O 2 elision: the real annotator against the model whose soundness is a theorem
+    res.extra["annotator_tie"] = constcorr.run(res, build_harness(), model, ddp, sd, 150 if quick else 2500)
     evalcorr.report_broken(res, broken)
     hist = Counter()
     for p in rnd:
